@@ -177,6 +177,8 @@ impl<'a> Ctx<'a> {
 pub struct PbtCfg {
     pub cases: u64,
     pub max_len: usize,
+    /// wall-clock cap for shrinking one counterexample (ms)
+    pub shrink_ms: u32,
 }
 
 pub trait Property: Send + Sync {
@@ -266,6 +268,7 @@ pub fn run_guarded(prop: &dyn Property, case: &CaseId, ctx: &mut Ctx) -> CaseRun
     }));
     match r {
         Ok(Ok(())) => CaseRun::Ok,
+        Ok(Err(f)) if f.signature == "harness_io" => CaseRun::HarnessBug(PanicInfo { file: "harness environment".into(), line: 0, message: format!("{}: {}", f.clause, f.detail) }),
         Ok(Err(f)) => {
             // exactly the signature of a listed open finding: the case ends here, counted, not a violation
             if ctx.is_known(&f.signature) {
